@@ -287,6 +287,9 @@ func vf07DecodeOne(r []byte) string {
 	if pv != nil {
 		return fmt.Sprintf("VIOL[c07-decode-panic]: RepresentativeToPublicKey(%x) panicked: %v", r, pv)
 	}
+	if !bytes.Equal(in[:], r) {
+		return fmt.Sprintf("VIOL[c07-decode-mutates-input]: RepresentativeToPublicKey changed the representative it was given from %x to %x (a representative that is decoded and then sent or compared must keep its top bits)", r, in)
+	}
 	want := refx.ToLE(refx.MapToU(r))
 	if out != want {
 		return fmt.Sprintf("VIOL[c07-decode-differs]: RepresentativeToPublicKey(%x) = %x, reference Elligator 2 map gives %x", r, out, want)
